@@ -56,11 +56,18 @@ type kase struct {
 
 // error kinds. "conn" and "pooltimeout" are mysql.ConnTypeError values (the only kind
 // Slice.TryFuse may count); the others must never advance the window.
+//
+// "conn_down" (tryfuse mode only): the replica is down at that moment — marked down by the
+// health check, as the harness does with SetStatusDown — and a session that had selected it
+// earlier reports its connection error now; the health check then marks it up again. Such an
+// error is a connection error recorded for the replica like any other (it must count in the
+// window for later events); whether the breaker "fires" on it is not observable through the
+// status, so only its effect on later events is checked.
 var kinds = []string{"conn", "pooltimeout", "sql", "badconn", "exectimeout", "plain", "nil"}
 
 func errOf(k string) error {
 	switch k {
-	case "conn":
+	case "conn", "conn_down":
 		return mysql.NewConnTypeError("127.0.0.1:3307", "failed to dial")
 	case "pooltimeout":
 		return util.ErrTimeout // ConnTypeError too: the pool could not produce a connection in time
@@ -76,7 +83,7 @@ func errOf(k string) error {
 	return nil
 }
 
-func counts(k string) bool { return k == "conn" || k == "pooltimeout" }
+func counts(k string) bool { return k == "conn" || k == "pooltimeout" || k == "conn_down" }
 
 func enabledCfg(c config) bool { return c.W > 0 && c.M > 0 && c.Policy != "off" }
 
@@ -104,6 +111,9 @@ func events(c config) []event {
 		}
 		for _, k := range kinds {
 			es = append(es, event{D: d, K: k})
+		}
+		if c.Mode == "tryfuse" {
+			es = append(es, event{D: d, K: "conn_down"})
 		}
 	}
 	return es
@@ -169,15 +179,22 @@ func run(c config, hist []event) outcome {
 	for i, e := range hist {
 		now += e.D
 		want, got := false, false
-		recorded := false
+		recorded, unobservable := false, false
 		switch c.Mode {
 		case "trigger":
 			got = sw.Trigger(now)
 			recorded = true
 		case "tryfuse":
 			vclock.Set(time.Unix(now, 0))
-			slice.TryFuse(node, errOf(e.K))
-			got = node.IsStatusDown()
+			if e.K == "conn_down" {
+				node.SetStatusDown() // what a health check does
+				slice.TryFuse(node, errOf(e.K))
+				node.SetStatusUp() // ... and a later one
+				unobservable = true
+			} else {
+				slice.TryFuse(node, errOf(e.K))
+				got = node.IsStatusDown()
+			}
 			recorded = counts(e.K)
 		case "getconn":
 			vclock.Set(time.Unix(now, 0))
@@ -202,6 +219,9 @@ func run(c config, hist []event) outcome {
 		}
 		if recorded && enabledCfg(c) {
 			want = int64(inWin) >= c.M
+		}
+		if unobservable {
+			got = want
 		}
 		if got != want {
 			kind := "fired_below_threshold"
@@ -441,7 +461,7 @@ func main() {
 	r.Set("max_depth", maxDepth)
 	r.Set("configs", len(cs))
 	r.Set("per_mode", perMode)
-	r.Set("bounds", fmt.Sprintf("W,M in 1..%d (direct) / 1..%d (through Slice) plus disabled (W or M <= 0, strategies not installed); start clock in {0, W-1, 1e9}; time deltas {0,1,2,W-1,W,W+1,3W}; depth %d (SlidingWindow.Trigger direct) / %d (Slice.TryFuse, Slice.GetSlaveConn, 7 error kinds per step); policies hard, gradual",
+	r.Set("bounds", fmt.Sprintf("W,M in 1..%d (direct) / 1..%d (through Slice) plus disabled (W or M <= 0, strategies not installed); start clock in {0, W-1, 1e9}; time deltas {0,1,2,W-1,W,W+1,3W}; depth %d (SlidingWindow.Trigger direct) / %d (Slice.TryFuse, Slice.GetSlaveConn, 7 error kinds per step, plus in tryfuse mode a connection error that hits the replica while a health check has it down); policies hard, gradual",
 		r.Pick(6, 8), r.Pick(4, 6), depthDirect, depthSlice))
 	r.Set("explanation", "states = distinct canonical (window private state, clock mod W, live reference timestamps) per configuration, summed; transitions = histories replayed on fresh real objects (every one executes the real Trigger/TryFuse/GetSlaveConn and is compared with the reference count after every step); distinct_nontrivial = distinct states reached in which an earlier recorded error had already expired while the window still held errors (bucket expiry / reuse really exercised); distinct_outcomes = distinct (mode, fired, errors in window) observations")
 	r.Assume("Slice.TryFuse reads the clock through vclock (time.Now rewritten in backend/slice.go, node_fuse.go, node.go); SlidingWindow.Trigger receives the timestamp as an argument and is not rewritten")
